@@ -326,7 +326,19 @@ def replay(pid, path):
 def main(argv):
     if argv and argv[0] == '--worker':
         pid, tier, seed, shard, nshards, outfile = argv[1:7]
-        worker_main(pid, tier, int(seed), int(shard), int(nshards), outfile)
+        covdir = os.environ.get('VERIF_COVERAGE_DIR')      # diagnostic only (tools/reach.py): which repository lines the workload drives
+        cov = None
+        if covdir:
+            import coverage
+            cov = coverage.Coverage(data_file=os.path.join(covdir, 'cov'), data_suffix=True,
+                                    source=[os.path.join(os.environ.get('VERIF_REPO', '/repo'), 'src')], branch=False)
+            cov.start()
+        try:
+            worker_main(pid, tier, int(seed), int(shard), int(nshards), outfile)
+        finally:
+            if cov is not None:
+                cov.stop()
+                cov.save()
         return 0
     if len(argv) < 2:
         print(__doc__)
